@@ -249,10 +249,16 @@ func (m *Migrator) migrateSwamp(folderPath string) {
 	// Step 0: Load swamp name from meta file
 	swampName, err := m.loadSwampNameFromMeta(folderPath)
 	if err != nil {
+		// The meta file is the only place the swamp name is stored. When it exists but cannot be
+		// read, do not write a nameless .hyd: with DeleteOld the only copy of the name would be gone.
+		if !errors.Is(err, os.ErrNotExist) {
+			m.recordFailure(folderPath, err.Error(), "load")
+			return
+		}
 		slog.Warn("Could not load swamp name from meta file",
 			"path", folderPath,
 			"error", err)
-		// Continue anyway - swamp name is optional for basic functionality
+		// No meta file at all: continue - swamp name is optional for basic functionality
 	}
 
 	// Step 1: Load V1 data (with deduplication)
